@@ -159,4 +159,20 @@ for mp in (2, 3, 4):
     for order in (ROW, DESC, PERM):
         thorough.append(job("c08.optics_contract", secs=600, jobs=8, n=4, mp=mp, order=order, part=STRUCT | REACH))
 
+
+# ---- wide / shallow instances: one or two symbolic points among fixed ones (code paths selected by the number of
+#      samples or by the size of a neighbourhood), fixed tolerance
+wide = []
+for kind in (0, 1, 2):
+    wide.append(job("c08.optics", secs=60, n=12, sym=1, mp=3, tolc=100, kind=kind, B=16))
+    wide.append(job("c08.optics", secs=60, n=14, sym=1, mp=2, tolc=40, kind=kind, B=16))
+    wide.append(job("c08.dbscan", secs=60, n=18, sym=1, mp=3, tolc=3, kind=kind, B=24))
+    wide.append(job("c08.dbscan", secs=60, n=20, sym=1, mp=3, tolc=6, kind=kind, B=24))
+    wide.append(job("c08.dbscan", secs=60, n=24, sym=1, mp=4, tolc=8, kind=kind, B=32))
+wide.append(job("c08.optics", secs=90, n=12, sym=2, mp=2, tolc=9, kind=2, B=16))
+wide.append(job("c08.optics", secs=90, n=11, sym=2, mp=3, tolc=100, kind=1, B=16))
+wide.append(job("c08.dbscan", secs=90, n=18, sym=2, mp=3, tolc=4, kind=2, B=24))
+wide.append(job("c08.dbscan", secs=60, n=33, sym=1, mp=3, tolc=5, kind=-1, B=40))
+quick += wide
+thorough += wide
 REG = {"C08": {"quick": quick, "thorough": thorough}}
